@@ -538,12 +538,17 @@ func c04NewRouters(cfg *v2.RouterConfiguration) (rs types.Routers, err error, pa
 // ---------------------------------------------------------------------------
 // alphabets
 
-var c04Domains = []string{"*", "a.com", "A.com", "a.com:80", "a.com:*", "*.com", "*.a.com", "*.b.a.com", "*:80", "*.com:80", "*.com:*", "b.com"}
+// Domain alphabet: the DESIGN list plus two further wildcard-host+wildcard-port
+// domains, so that every wildcard class (no port, exact port, any port) has
+// suffixes of different lengths coexisting in one configuration.
+var c04Domains = []string{"*", "a.com", "A.com", "a.com:80", "a.com:*", "*.com", "*.a.com", "*.b.a.com", "*:80", "*.com:80", "*.com:*", "b.com", "*.a.com:*", "*.b.a.com:*"}
 
-// Host values: the DESIGN list, upper-case/ported variants of it, and three
-// syntactically invalid values.
+// Host values: the DESIGN list, upper-case/ported variants of it, three
+// syntactically invalid values, and hosts not longer than a configured suffix.
 var c04Hosts = []string{"", "a.com", "A.COM", "a.com:80", "A.Com:80", "a.com:81", "x.a.com", "X.A.com:80", "y.b.a.com:80", "y.b.a.com", "b.com", "b.com:80",
-	"c.org", "c.org:80", "com", ".com", "[::1]:80", "a.com:80:80", "[::1", "::1"}
+	"c.org", "c.org:80", "com", ".com", "[::1]:80", "a.com:80:80", "[::1", "::1",
+	// hosts shorter than / as long as the longer wildcard suffixes, on a port no domain names
+	"hello.com:30777", "x.a.com:81", "com:80"}
 
 func c04VHostConfig(vhosts [][]string, routes func(i int) []v2.Router) *v2.RouterConfiguration {
 	cfg := &v2.RouterConfiguration{}
